@@ -34,6 +34,8 @@ def scalarIn (o : Oracle) (name : String) (v : PyVal) : PyR :=
   | "ID" => ScalarID.coerce_input o v
   | _ => if customOk v then .ok v else .error .valueError
 
+def isNullMe : PyVal → Bool | .str s => s == "NULLME" | _ => false
+
 def scalarOut (o : Oracle) (name : String) (v : PyVal) : PyR :=
   match name with
   | "Int" => ScalarInt.coerce_output o v
@@ -41,7 +43,11 @@ def scalarOut (o : Oracle) (name : String) (v : PyVal) : PyR :=
   | "String" => ScalarString.coerce_output o v
   | "Boolean" => ScalarBoolean.coerce_output o v
   | "ID" => ScalarID.coerce_output o v
-  | _ => if customOk v then .ok v else .error .valueError
+  | _ =>
+    -- harness custom scalar: the string "NULLME" is serialised to None (a leaf that becomes null
+    -- only during output coercion)
+    if isNullMe v then .ok .none
+    else if customOk v then .ok v else .error .valueError
 
 def Value.toNode : Value → PyVal
   | .var n => .node "VariableNode" (.str n)
@@ -229,23 +235,22 @@ inductive VarOut where
   | errors (es : List String)
 deriving Repr, Inhabited
 
+def isNone : PyVal → Bool | .none => true | _ => false
+
 def coerceVariable (fuel : Nat) (S : Schema) (o : Oracle) (vd : VarDef) (raw : List (String × PyVal)) : VarOut :=
-  let hasValue := (lookupKV vd.name raw).isSome
-  let value := lookupKV vd.name raw
-  match hasValue, vd.default with
-  | false, some d =>
-    match coerceLiteral fuel S o none false vd.type d with
-    | none => .errors ["invalid-default"]
-    | some v => .value v
-  | _, _ =>
-    if (!hasValue || (match value with | some .none => true | _ => false)) && vd.type.isNonNull then
-      .errors [if hasValue then "null-for-non-null" else "missing-required"]
-    else
-      match value with
-      | some v =>
-        let r := coerceInput fuel S o vd.type v
-        if !r.errors.isEmpty then .errors r.errors else .value r.value
-      | none => .absent
+  match lookupKV vd.name raw with
+  | none =>
+    -- `not has_value`: the default (if any) is literal-coerced, else required / absent
+    match vd.default with
+    | some d =>
+      match coerceLiteral fuel S o none false vd.type d with
+      | none => .errors ["invalid-default"]
+      | some v => .value v
+    | none => if vd.type.isNonNull then .errors ["missing-required"] else .absent
+  | some x =>
+    if isNone x && vd.type.isNonNull then .errors ["null-for-non-null"]
+    else if (coerceInput fuel S o vd.type x).errors.isEmpty then .value (coerceInput fuel S o vd.type x).value
+    else .errors (coerceInput fuel S o vd.type x).errors
 
 /-- `coerce_variables`: (coerced values, [(variable name, error tag, location)]) -/
 def coerceVariables (fuel : Nat) (S : Schema) (o : Oracle) (vds : List VarDef) (raw : List (String × PyVal)) :
